@@ -123,7 +123,7 @@ def run(c):
     else:
         c.record("unsafe-inventory", "R3", None, d + " (%d blocks)" % sum(got.values()), "hold", sorted(got))
     # --- head and block are written in the same batch, one commit
-    c.r1("block-and-head-one-batch", "grin_chain::pipe::process_block", "grin_chain::pipe::add_block", sink="grin_chain::pipe::update_head", via=0)
+    c.r1("block-and-head-one-batch", "grin_chain::pipe::process_block", "grin_chain::pipe::add_block", sink="grin_chain::pipe::update_head", via=2)
     c.never("no-commit-inside-pipeline", "grin_chain::pipe::process_block", None, "re:store::Batch::commit$", desc="pipe::process_block never commits the outer batch itself")
     c.r3("commit-sites", "grin_chain::store::Batch::commit", _commit_callers(c), floor_sites=13)
 
